@@ -22,13 +22,13 @@ def run(tier):
         "[0..4]^<=4 / [-1..3]^<=4 is accepted iff valid, then applied exactly as documented; invalid ones raise ValueError; all 8x6x6 "
         "valid triples per formula are applied exactly; the caller's lists and the input formula stay untouched.")
     run.bounds = ['12 formulas with N<=3 variables, M<=3 clauses', 'all RNG outcomes (<=288 per formula and switch combination)', 'three entry points']
-    run.bounds += ['explicit arguments as list, tuple and range (increasing and decreasing)', 'independence: 12 formulas x 4 argument modes x 3 ways of extending the result / the input afterwards']
+    run.bounds += ['explicit arguments as list, tuple and range (increasing and decreasing)', 'one explicit component (8 flip vectors / 6 variable permutations / 6 clause permutations) combined with every fixed/random choice of the other two, all RNG outcomes: the explicit component is applied exactly as given', 'independence: 12 formulas x 4 argument modes x 3 ways of extending the result / the input afterwards']
     run.outside = ['larger formulas (the random path is the same code for any size, but that is not proved)', 'the Mersenne Twister itself (stubbed)']
     run.assumptions = ['stub: cnfgen.transformations.shuffle.random -> FakeRandom (arbitrary outcome within the documented contract of choice/shuffle/sample/randint/random)',
                        'enumerative mode: draws and switches are concretised by solver decisions, the body runs untraced']
     T = 300 if tier == 'quick' else 1200
     names = ['h_e_random_%s_%d' % (t, i) for t in ('lib', 'cnfshuffle', 'T') for i in range(NF)]
-    names += ['h_e_independent', 'h_e_explicit_valid', 'h_e_explicit_flips', 'h_e_explicit_vperm', 'h_e_explicit_cperm']
+    names += ['h_e_mixed_flips', 'h_e_mixed_vperm', 'h_e_mixed_cperm', 'h_e_independent', 'h_e_explicit_valid', 'h_e_explicit_flips', 'h_e_explicit_vperm', 'h_e_explicit_cperm']
     conds = [xengine.Cond('c09', n, T, symbolic=False) for n in names]
     part = xengine.run_conditions('c09.x', conds)
     from cnfgen.transformations.shuffle import Shuffle
